@@ -27,8 +27,8 @@ PROPERTY_ID = "C07"
 RULE = ("structure library of vlib/symlib.py (23 structures in the families cubic / hexagonal / low symmetry, consistent "
         "projection sets, scalar / spin-orbit / ferro-, antiferro-, non-collinear magnetic variants, free lattice and internal "
         "parameters) x random start model (Ham, AA, BB, CC, FF; SS, SA, SHA, SH, SR, SHR with spin) symmetrised by the code x grid "
-        "NKdiv x NKFFT compatible with the lattice family (<= 64 k-points, NKdiv >= 2 along the first axis) x <= 5 static (all classes of calculators.static "
-        "found by reflection x {all, internal, external terms}, tetra=False) + <= 1 dynamic / SDCT + <= 3 tabulators + Energy, "
+        "NKdiv x NKFFT compatible with the lattice family (<= 64 k-points, NKdiv >= 2 along the first axis) x core {AHC, BerryDipole_FermiSea, Ohmic_FermiSea; tabulated BerryCurvature, DerBerryCurvature} + <= 4 static (all classes of calculators.static "
+        "found by reflection x {all, internal, external terms}, tetra=False) + <= 1 dynamic / SDCT + <= 2 tabulators + Energy, "
         "Fermi grid of 1-5 levels; non-trivial = group order >= 4, fewer irreducible than full K-points, at least one "
         "compared quantity not zero by symmetry (|full| > 1e-6 of its yardstick), no gap below 2e-3 on the grid; labels count every compared calculator")
 ASSUMPTIONS = ["precondition 'genuinely symmetric' is decided by the harness (E, Berry curvature, spin covariant under every "
@@ -55,6 +55,8 @@ BASE_KEYS = ["Ham", "AA", "BB", "CC", "FF"]
 SPIN_KEYS = ["SS", "SA", "SHA", "SH", "SR", "SHR"]
 EQUAL_AXES = {"sc": [(0, 1), (1, 2)], "fcc": [(0, 1), (1, 2)], "bcc": [(0, 1), (1, 2)], "rhombohedral": [(0, 1), (1, 2)],
               "tetragonal": [(0, 1)], "hexagonal": [(0, 1)], "hexagonal60": [(0, 1)]}
+CORE = {"static": ["static.AHC", "static.BerryDipole_FermiSea", "static.Ohmic_FermiSea"], "dynamic": [],
+        "tab": ["tab.BerryCurvature", "tab.DerBerryCurvature"]}
 _small = st.tuples(st.integers(-1, 1), st.integers(-1, 1), st.integers(-1, 1)).filter(lambda r: any(r))
 _idx = st.integers(0, 10 ** 6)
 
@@ -85,9 +87,9 @@ def case_st(family):
                     R=[list(r) for r in draw(st.lists(_small, min_size=2, max_size=3, unique=True))],
                     cmode=draw(st.sampled_from(["site", "exact", "site"])), disp=draw(st.sampled_from([0.01, 0.04])),
                     decay=draw(st.sampled_from([1.0, 2.0])), NKdiv=div, NKFFT=fft,
-                    static=draw(st.lists(_idx, min_size=2, max_size=5, unique=True)),
+                    static=draw(st.lists(_idx, min_size=1, max_size=4, unique=True)),
                     dynamic=draw(st.lists(_idx, min_size=0, max_size=1, unique=True)),
-                    tab=draw(st.lists(_idx, min_size=1, max_size=3, unique=True)),
+                    tab=draw(st.lists(_idx, min_size=0, max_size=2, unique=True)),
                     Efermi=[round(E0 + 0.0137 + i * dE, 6) for i in range(nE)],
                     kprobe=[draw(fl(0.05, 0.45)) for _ in range(3)])
     return _st()
@@ -140,8 +142,10 @@ def select(case, system, grid1):
     chosen, skipped = {}, []
     for kind in ("static", "dynamic", "tab"):
         seen = set()
-        for i in case[kind]:
-            name, make = reg[kind][i % len(reg[kind])]
+        byname = dict(reg[kind])
+        # a fixed core (one calculator per basic formula: Omega, DerOmega, InvMass) + the drawn ones
+        picks = [(n, byname[n]) for n in CORE[kind] if n in byname] + [reg[kind][i % len(reg[kind])] for i in case[kind]]
+        for name, make in picks:
             if name in seen:
                 continue
             seen.add(name)
